@@ -32,7 +32,7 @@ def variant_map(ctx, fn, pick=None):
     return out
 
 
-UINT_KEYS = {'bit_width', 'from_bit_width', 'structural-type', 'structural-value', 'display', 'parse', 'grammar', 'grammar:no-prefix-shadowing', 'parse_decimal', 'try_from-bytes', 'as_integer:shifts'}
+UINT_KEYS = {'get_type', 'from-primitive', 'bit_width', 'from_bit_width', 'structural-type', 'structural-value', 'display', 'parse', 'grammar', 'grammar:no-prefix-shadowing', 'parse_decimal', 'try_from-bytes', 'as_integer:shifts'}
 
 
 def r_uint_tables(ctx, only=None):
@@ -61,6 +61,14 @@ def r_uint_tables(ctx, only=None):
     exp = {v: 'StructuralValue{u%d(value@%s.0)}' % (n, v) for v, n in WIDTHS.items()}
     exp['U256'] = 'StructuralValue{u256(to_byte_array(value@U256.0))}'
     ob(rid, 'structural-value', sv_ == exp, 'StructuralValue::from(Uk(n)) = SimValue::uk(n)', None, str(sv_))
+    gt = variant_map(ctx, ctx.anchor(fx, 'value::UIntValue::get_type'))
+    ob(rid, 'get_type', gt == {v: '%s{}' % v for v in WIDTHS}, 'UIntValue::get_type: Uk(_) ↦ Uk (the type every consistency check compares)', None, str(gt))
+    prim = {}
+    for n in (8, 16, 32, 64, 128):
+        pf = fx.F.get('<value::UIntValue as std::convert::From<u%d>>::from' % n)
+        if pf is not None:
+            prim[n] = [S(r) for k, p, r in explore(ctx, pf) if k == 'RET']
+    ob(rid, 'from-primitive', prim == {n: ['U%d{%s}' % (n, fx.F['<value::UIntValue as std::convert::From<u%d>>::from' % n].names.get(1, 'value'))] for n in (8, 16, 32, 64, 128)}, 'UIntValue::from(x: uN) = UN(x)', None, str(prim))
     dp = {}
     fn = ctx.anchor(fx, '<types::UIntType as std::fmt::Display>::fmt')
     for kind, p, ret in explore(ctx, fn):
@@ -310,6 +318,8 @@ def r_layout_tables(ctx, rid, group=LAYOUT_GROUP, floor=30):
 
 def check(ctx):
     r_layout_tables(ctx, 'R07.10')
+    from . import c04
+    c04.group_rule(ctx, 'R07.11', r"^(<types::\w+ as types::TypeDeconstructible>::\w+|types::TypeDeconstructible::is_unit|<(&?types::\w+|&?value::\w+|value::Destructor<'_>) as miniscript::iter::TreeLike>::as_node|types::UIntType::two_n|value::UIntValue::(get_type|is_of_type)|<value::UIntValue as std::convert::From<(u\d+|num::U256)>>::from)$", 'type deconstructors and the children of type / value tree nodes in order', 20)
     r_value_to_structural(ctx)
     r_reconstruct(ctx)
     layout.r_btree(ctx, 'R07.1')
